@@ -222,6 +222,20 @@ def h_nan(eng):
                 eng.fail(f"nan:eq-number-raises:{unit}:{num}", detail=type(ex).__name__, stop=False)
                 continue
             P(bool(r) is False, f"nan:eq-number-false:{unit}:{num}")
+    # the answer depends on the values compared, not on whether both operands are one object
+    import copy
+
+    import numpy as np
+
+    for unit in ("meter", "degC", "", "percent", "hertz"):
+        for mag in (nan, 0.0, 2.5, inf_):
+            a = Qy(mag, unit)
+            P(bool(a == a) == bool(a == copy.copy(a)) and bool(a != a) == bool(a != copy.copy(a)), f"same-object-as-equal-copy:{unit}:{mag}")
+            if unit not in ("degC",):
+                P(bool(a <= a) == bool(a <= copy.copy(a)) and bool(a < a) == bool(a < copy.copy(a)), f"same-object-as-equal-copy-order:{unit}:{mag}")
+        arr = Qy(np.array([nan, 1.0, 0.0]), unit)
+        P(list(arr == arr) == list(arr == copy.copy(arr)) == [False, True, True], f"same-object-as-equal-copy-array:{unit}")
+        P(list(arr != arr) == [True, False, False], f"same-object-ne-array:{unit}")
     P(Qy(inf_, "meter") > Qy(1e300, "kilometer") and Qy(-inf_, "meter") < Qy(-1e300, "kilometer"), "inf:orders-beyond-everything")
     P(Qy(inf_, "meter") == Qy(inf_, "centimeter") and not (Qy(inf_, "meter") == Qy(-inf_, "meter")), "inf:equality")
     P(hash(Qy(inf_, "meter")) == hash(Qy(inf_, "centimeter")), "inf:hash")
